@@ -43,17 +43,18 @@ theorem not_issued_fresh {fA fB : Nat → String} (g : Gens fA fB) (nA nB k : Na
 /-- identifier discipline of one instance's state, given how many identifiers each generator has handed out:
 only known keys are stored; every stored or remembered identifier has been issued; no identifier is stored under
 two keys; no stored run is remembered as finished. -/
-structure IdInv (c : Cfg ε) (fA fB : Nat → String) (nA nB : Nat) (s : DState ε) : Prop where
+structure IdInv (c : Cfg ε) (Iss : String → Prop) (s : DState ε) : Prop where
   known : ∀ ph pa id r, s.table.runAt ph pa id = some r → (c.getPattern ph pa).isSome = true
-  tbl : ∀ ph pa id r, s.table.runAt ph pa id = some r → Issued fA fB nA nB id
-  mem : ∀ id, inCache s.cacheC id = true ∨ inCache s.cacheH id = true → Issued fA fB nA nB id
+  tbl : ∀ ph pa id r, s.table.runAt ph pa id = some r → Iss id
+  mem : ∀ id, inCache s.cacheC id = true ∨ inCache s.cacheH id = true → Iss id
   uniq : ∀ ph pa ph' pa' id r r', s.table.runAt ph pa id = some r → s.table.runAt ph' pa' id = some r' →
     ph = ph' ∧ pa = pa'
   fresh : ∀ ph pa id r, s.table.runAt ph pa id = some r → inCache s.cacheC id = false ∧ inCache s.cacheH id = false
 
-theorem IdInv.symm {c : Cfg ε} {fA fB : Nat → String} {nA nB : Nat} {s : DState ε} (h : IdInv c fA fB nA nB s) :
-    IdInv c fB fA nB nA s :=
-  ⟨h.known, fun ph pa id r hr => (h.tbl ph pa id r hr).symm, fun id hm => (h.mem id hm).symm, h.uniq, h.fresh⟩
+/-- more identifiers issued: the invariant still holds. -/
+theorem IdInv.mono {c : Cfg ε} {Iss Iss' : String → Prop} {s : DState ε} (h : IdInv c Iss s)
+    (himp : ∀ id, Iss id → Iss' id) : IdInv c Iss' s :=
+  ⟨h.known, fun ph pa id r hr => himp _ (h.tbl ph pa id r hr), fun id hm => himp _ (h.mem id hm), h.uniq, h.fresh⟩
 
 theorem isSome_iff_exists {α} (o : Option α) : o.isSome = true ↔ ∃ v, o = some v := by
   cases o <;> simp
@@ -87,11 +88,13 @@ theorem bool_false_of_not_true {b : Bool} (h : ¬ b = true) : b = false := by
 hygiene of its notification (no announced run is remembered as finished; no identifier is announced both as
 finished and as updated; the originator no longer holds what it announces finished) and the invariant after
 it — the generators only have to be repetition- and collision-free. -/
-theorem local_ids (c : Cfg ε) (hc : c.caching = true) (hcw : CfgWF c) (fA fB : Nat → String) (g : Gens fA fB)
-    (a a' : DState ε) (e : ε) (nt : Notif ε) (ch : Bool) (nB : Nat)
+theorem local_ids (c : Cfg ε) (hc : c.caching = true) (hcw : CfgWF c) (fA : Nat → String)
+    (injA : ∀ i j, fA i = fA j → i = j) (Iss : String → Prop)
+    (a a' : DState ε) (e : ε) (nt : Notif ε) (ch : Bool)
     (hwf : TableWF a.table)
     (hlive : ∀ ph pa id r, a.table.runAt ph pa id = some r → r.run.halted = false)
-    (hinv : IdInv c fA fB a.nextId nB a)
+    (hinv : IdInv c Iss a)
+    (hfr : ∀ k, a.nextId ≤ k → ¬ Iss (fA k))
     (hA : localStep (withIds c fA) a e = some (a', nt, ch))
     (hevC : a.cacheC.length + nt.completed.length ≤ c.maxCache)
     (hevH : a.cacheH.length + nt.halted.length ≤ c.maxCache) :
@@ -99,7 +102,7 @@ theorem local_ids (c : Cfg ε) (hc : c.caching = true) (hcw : CfgWF c) (fA fB : 
     (∀ x ∈ nt.completed ++ nt.halted ++ nt.updated, inCache a.cacheC x.id = false ∧ inCache a.cacheH x.id = false) ∧
     (∀ u ∈ nt.updated, ∀ f ∈ nt.completed ++ nt.halted, u.id ≠ f.id) ∧
     (∀ x ∈ nt.completed ++ nt.halted, a'.table.runAt x.phen x.pat x.id = none) ∧
-    IdInv c fA fB a'.nextId nB a' := by
+    IdInv c (fun id => Iss id ∨ ∃ k, a.nextId ≤ k ∧ k < a'.nextId ∧ id = fA k) a' := by
   have hcw' : CfgWF (withIds c fA) := hcw
   have hc' : (withIds c fA).caching = true := hc
   unfold localStep at hA
@@ -115,7 +118,7 @@ theorem local_ids (c : Cfg ε) (hc : c.caching = true) (hcw : CfgWF c) (fA fB : 
     simp only [hcp, Option.some.injEq, Prod.mk.injEq] at hA
     obtain ⟨hs', hnt, _⟩ := hA
     obtain ⟨d, hd, hpat⟩ := checkAgainstPatterns_exact (withIds c fA) hcw' e t1 a.nextId acc hcp
-    have hids := checkAgainstPatterns_ids (withIds c fA) g.injA e t1 a.nextId acc hcp
+    have hids := checkAgainstPatterns_ids (withIds c fA) injA e t1 a.nextId acc hcp
     have hframe := checkAgainstPatterns_frame (withIds c fA) hcw' e t1 a.nextId acc hcp
     obtain ⟨dh, du, hdh, hdu, hrange, hsepp, hnodup⟩ := hids.lists
     have hnext := hids.next
@@ -134,18 +137,18 @@ theorem local_ids (c : Cfg ε) (hc : c.caching = true) (hcw : CfgWF c) (fA fB : 
     have hidOf : ∀ k, (withIds c fA).idOf k = fA k := fun _ => rfl
     have hgp : ∀ ph pa, (withIds c fA).getPattern ph pa = c.getPattern ph pa := fun _ _ => rfl
     -- identifiers of the patterns phase are not issued yet
-    have hfreshid : ∀ x ∈ dh ++ du, ¬ Issued fA fB a.nextId nB x.id := by
+    have hfreshid : ∀ x ∈ dh ++ du, ¬ Iss x.id := by
       intro x hx
       obtain ⟨k, hk1, _, ek⟩ := hrange x hx
-      rw [ek, hidOf]; exact not_issued_fresh g a.nextId nB k hk1
-    have hnewissued : ∀ x ∈ dh ++ du, Issued fA fB acc.nextId nB x.id := by
+      rw [ek, hidOf]; exact hfr k hk1
+    have hnewissued : ∀ x ∈ dh ++ du, (Iss x.id ∨ ∃ k, a.nextId ≤ k ∧ k < acc.nextId ∧ x.id = fA k) := by
       intro x hx
-      obtain ⟨k, _, hk2, ek⟩ := hrange x hx
-      exact .inl ⟨k, hk2, by rw [ek, hidOf]⟩
+      obtain ⟨k, hk1, hk2, ek⟩ := hrange x hx
+      exact .inr ⟨k, hk1, hk2, by rw [ek, hidOf]⟩
     -- runs-phase records name stored runs
     have hprov' : ∀ x ∈ rhc ++ rhi ++ rupd, ∃ r, a.table.runAt x.phen x.pat x.id = some r :=
       fun x hx => (isSome_iff_exists _).mp (hprov x hx)
-    have hissued : ∀ x ∈ rhc ++ rhi ++ rupd, Issued fA fB a.nextId nB x.id := by
+    have hissued : ∀ x ∈ rhc ++ rhi ++ rupd, Iss x.id := by
       intro x hx; obtain ⟨r, hr⟩ := hprov' x hx; exact hinv.tbl _ _ _ r hr
     have hold : ∀ ph pa id, (t1.runAt ph pa id).isSome = true → ∃ r0, a.table.runAt ph pa id = some r0 := by
       intro ph pa id h1
@@ -273,7 +276,7 @@ theorem local_ids (c : Cfg ε) (hc : c.caching = true) (hcw : CfgWF c) (fA fB : 
         intro ph pa id r' hr'
         rcases hF2 ph pa id r' hr' with h1 | ⟨_, u, hu, hku⟩
         · obtain ⟨r0, hr0⟩ := hold _ _ _ h1
-          exact (hinv.tbl _ _ _ r0 hr0).mono hnext
+          exact .inl (hinv.tbl _ _ _ r0 hr0)
         · rw [((keyMatch_iff ph pa id u).mp hku).2.2]
           exact hnewissued u (List.mem_append.mpr (.inr hu))
       · -- remembered identifiers are issued
@@ -294,8 +297,8 @@ theorem local_ids (c : Cfg ε) (hc : c.caching = true) (hcw : CfgWF c) (fA fB : 
             · obtain ⟨x, hx, hxe⟩ := List.any_eq_true.mp h
               exact .inr (.inl ⟨x, List.mem_append.mpr (.inr hx), by simpa using hxe⟩)
         rcases hcases with h | ⟨x, hx, hxe⟩ | ⟨x, hx, hxe⟩
-        · exact (hinv.mem id h).mono hnext
-        · rw [← hxe]; exact (hissued x (List.mem_append.mpr (.inl hx))).mono hnext
+        · exact .inl (hinv.mem id h)
+        · rw [← hxe]; exact .inl (hissued x (List.mem_append.mpr (.inl hx)))
         · rw [← hxe]; exact hnewissued x (List.mem_append.mpr (.inl hx))
       · -- no identifier under two keys
         intro ph pa ph' pa' id r r' hr hr'
@@ -350,7 +353,7 @@ theorem local_ids (c : Cfg ε) (hc : c.caching = true) (hcw : CfgWF c) (fA fB : 
           · intro x hx hxe
             exact hfreshid x (List.mem_append.mpr (.inl hx)) (by rw [hxe]; exact hinv.tbl _ _ _ r0 hr0)
         · have hidu : id = u.id := ((keyMatch_iff ph pa id u).mp hku).2.2
-          have hnot : ¬ Issued fA fB a.nextId nB id := by rw [hidu]; exact hfreshid u (List.mem_append.mpr (.inr hu))
+          have hnot : ¬ Iss id := by rw [hidu]; exact hfreshid u (List.mem_append.mpr (.inr hu))
           refine hgoal (bool_false_of_not_true (fun h => hnot (hinv.mem id (.inl h))))
             (bool_false_of_not_true (fun h => hnot (hinv.mem id (.inr h)))) ?_ ?_
           · intro x hx hxe
